@@ -4,7 +4,8 @@ R-17.1 follows the text of comment / literal tokens through the rules; the sub-p
 diagnostics (CHAR_AS_STRING, EMPTY_CHAR, the unterminated forms), with highlights and hints that both report formats print.  The
 two literal sub-parsers are interpreted (sa/lexsim.py, DESIGN §3.4b) on every body of <= 3 characters over {letter, operator
 character, brace, blank, the quote of the other kind} -- the replacement alphabet of the property, free of delimiters, backslashes
-and line breaks -- closed and left open: bodies of the same length must give the same token kind, the same cursor and the same
+and line breaks -- closed and left open, and -- through get_next_token, with the tree's own choice of sub-parser -- unprefixed and with the L / u8
+prefixes: bodies of the same length must give the same token kind, the same cursor and the same
 diagnostics (code, level, and every highlight with its position, length and hint)."""
 from __future__ import annotations
 
@@ -25,14 +26,15 @@ def rule_literal_text_opaque(run, prog, rid="R-17.8"):
         run.require(fn is not None, f"anchor vanished: Lexer.{name}")
         bad, n = None, 0
         try:
-            for closed in (True, False):
-                for k in range(1, 4):
+            for closed, pre, entry in ((True, "", name), (False, "", name), (True, "", "get_next_token"), (True, "L", "get_next_token"),
+                                       (True, "u8", "get_next_token")):
+                for k in range(1, 4 if not pre else 3):
                     ref = None
                     for body in itertools.product(["a", "+", "{", " ", other], repeat=k):
-                        raw = q + "".join(body) + (q if closed else "")
+                        raw = pre + q + "".join(body) + (q if closed else "")
                         n += 1
                         sim = LexerSim(prog, raw + ("" if not closed else ";\n"))
-                        out = sim.call(name)
+                        out = sim.call(entry)
                         sig = (out.kind, getattr(out.value, "type", None) if out.kind == "ok" else out.exc, sim.line, sim.line_pos, sim.pos,
                                [(e.name, e.level, [(h.lineno, h.column, h.length, h.hint) for h in e.highlights]) for e in sim.errors.items])
                         if ref is None:
